@@ -6,24 +6,26 @@ From PM.proofs Require Import FrA_lrc_proofs FrA_ascii_proofs FrA_ascii_resync_p
 Open Scope list_scope.
 Open Scope Z_scope.
 
-(* from the synchronised state every read made of whole valid frames — one OR several per read —
-   is delivered completely, raises nothing and leaves the receiver synchronised (backlog 0) *)
+(* from the synchronised state every read made of whole frames — one OR several per read, ANY mix
+   of frames for served and for foreign units — delivers exactly the frames of the accepted units,
+   raises nothing and leaves the receiver synchronised (backlog 0) *)
 Theorem C11_after_sync_ascii : forall (dec : bytes -> dres) (c : cfg) (st : astate) (vs : list frame),
-  a_sync st -> Forall (valid_frame KAscii dec c) vs ->
+  a_sync st -> Forall (stream_frame KAscii dec c) vs ->
   exists st', a_recv base lrc ascii dec c st (concat (map (spec_adu KAscii) vs))
-              = (st', map (spec_delivery KAscii) vs, Done) /\ a_sync st'.
+              = (st', ref_deliveries KAscii c vs, Done) /\ a_sync st'.
 Proof. exact ascii_after_sync. Qed.
 Print Assumptions C11_after_sync_ascii.
 
 (* RECOVERY FROM AN ARBITRARY STATE (any buffered garbage, any header — in particular every
    reachable one): one read consisting of one or more valid frames either raises (exactly the
    open finding below: a valid-LRC frame in the garbage whose PDU the decoder rejects) or ends
-   synchronised; by C11_after_sync_ascii every later read is then delivered completely.  Bound:
-   one read of valid traffic (<= the property's two maximum-size frames when one frame per read). *)
+   synchronised AND has delivered every one of those valid frames (garbage costs nothing but itself:
+   since repair 11 not even a foreign-unit frame in the garbage loses the frames behind it);
+   by C11_after_sync_ascii every later read is delivered completely as well. *)
 Theorem C11_recover_ascii_partial : forall (dec : bytes -> dres) (c : cfg) (st : astate) (vs : list frame) st' ds o,
   vs <> [] -> Forall (valid_frame KAscii dec c) vs ->
   a_recv base lrc ascii dec c st (concat (map (spec_adu KAscii) vs)) = (st', ds, o) ->
-  o = Done -> a_sync st'.
+  o = Done -> a_sync st' /\ exists ds0, ds = ds0 ++ map (spec_delivery KAscii) vs.
 Proof. exact ascii_recover. Qed.
 Print Assumptions C11_recover_ascii_partial.
 
@@ -38,10 +40,10 @@ Print Assumptions C11_recover_ascii.
 (* valid traffic cut anywhere: the backlog is always a proper prefix of one frame; stated through
    C06_ascii's chunking theorem: all frames delivered for every division into reads *)
 Theorem C11_backlog_ascii : forall (dec : bytes -> dres) (c : cfg) (frames : list frame) (chunks : list bytes),
-  Forall (valid_frame KAscii dec c) frames ->
+  Forall (stream_frame KAscii dec c) frames ->
   concat chunks = concat (map (spec_adu KAscii) frames) ->
   exists s', feed (a_recv base lrc ascii dec c) (a_init ascii) chunks
-             = (s', map (spec_delivery KAscii) frames, true).
+             = (s', ref_deliveries KAscii c frames, true).
 Proof. exact ascii_chunking. Qed.
 Print Assumptions C11_backlog_ascii.
 
